@@ -555,3 +555,32 @@ import collections.abc as _abc  # noqa: E402
 
 _ABC_TYPES = {n: getattr(_abc, n) for n in ('Collection', 'Container', 'Sized', 'Iterable', 'Iterator', 'Sequence', 'MutableSequence',
                                             'Mapping', 'MutableMapping', 'Set', 'MutableSet', 'Hashable', 'Callable')}
+
+
+def module_constants(mod) -> dict:
+    """Values of the module-level constant tables of MOD, in definition order: literals, container constructors over
+    literals, and expressions over constants defined earlier in the module (dict(_PAIRS), frozenset(_A) | {...}, ...)."""
+    from .loader import const_eval
+    consts: dict = {}
+    for node in mod.tree.body:
+        if isinstance(node, ast.Assign) and len(node.targets) == 1 and isinstance(node.targets[0], ast.Name):
+            name, val = node.targets[0].id, node.value
+        elif isinstance(node, ast.AnnAssign) and isinstance(node.target, ast.Name) and node.value is not None:
+            name, val = node.target.id, node.value
+        else:
+            continue
+        try:
+            consts[name] = const_eval(val)
+            continue
+        except ValueError:
+            pass
+        if any(isinstance(x, (ast.Lambda, ast.Await, ast.Yield)) for x in ast.walk(val)):
+            continue
+        calls = [x for x in ast.walk(val) if isinstance(x, ast.Call)]
+        if any(not (isinstance(c.func, ast.Name) and c.func.id in ('dict', 'frozenset', 'set', 'tuple', 'list', 'sorted', 'len', 'max', 'min', 'range')) for c in calls):
+            continue
+        try:
+            consts[name] = MiniEval(dict(consts)).expr(val, {})
+        except Exception:  # noqa: BLE001 - not a constant expression
+            continue
+    return consts
